@@ -1031,4 +1031,51 @@ theorem bind_interleaving_witness :
 def run (c : Cfg) (loc : List Feat) (rem : Nat → List Feat) (ops : List Op) : St :=
   ops.foldl (step c) { loc := loc, rem := rem }
 
+/-! ### ids are never reused -/
+
+/-- one step: every subscription afterwards was there before or carries the fresh id; the counter never decreases -/
+theorem step_subs_old_or_fresh (c : Cfg) (s : St) (op : Op) :
+    (∀ e ∈ (step c s op).subs, e ∈ s.subs ∨ e.id = s.subNum + 1) ∧ s.subNum ≤ (step c s op).subNum := by
+  cases op with
+  | sub p ce cf se sf t =>
+    simp only [step, addSub]
+    split
+    · exact ⟨fun e he => Or.inl he, Nat.le_refl _⟩
+    · split
+      · exact ⟨fun e he => Or.inl he, Nat.le_succ _⟩
+      · refine ⟨fun e he => ?_, Nat.le_succ _⟩
+        rcases List.mem_append.mp he with he | he
+        · exact Or.inl he
+        · simp only [List.mem_singleton] at he; subst he; exact Or.inr rfl
+  | unsub p cd ce cf se sf =>
+    have := delSub_shape c s p cd ce cf se sf
+    exact ⟨fun e he => Or.inl (this.1.subset he), by simp only [step]; rw [this.2.1]; exact Nat.le_refl _⟩
+  | bind p ce cf se sf t =>
+    have := addBind_shape s p ce cf se sf t
+    exact ⟨fun e he => Or.inl (by simp only [step] at he; rw [this.1] at he; exact he), by simp only [step]; rw [this.2.1]; exact Nat.le_refl _⟩
+  | unbind p cd ce cf se sf =>
+    have := delBind_shape c s p cd ce cf se sf
+    exact ⟨fun e he => Or.inl (by simp only [step] at he; rw [this.2.2.1] at he; exact he), by simp only [step]; rw [this.2.2.2.1]; exact Nat.le_refl _⟩
+  | drop p => exact ⟨fun e he => Or.inl (List.filter_sublist.subset he), Nat.le_refl _⟩
+  | dropEnt p ent =>
+    have := removeEntity_shape c s p ent
+    exact ⟨fun e he => Or.inl (this.1.subset he), by simp only [step]; rw [this.2.2.1]; exact Nat.le_refl _⟩
+  | bareEnt p ent => exact ⟨fun e he => Or.inl he, Nat.le_refl _⟩
+  | subsPass p ent => exact ⟨fun e he => Or.inl (List.filter_sublist.subset he), Nat.le_refl _⟩
+  | bindsPass p ent => exact ⟨fun e he => Or.inl he, Nat.le_refl _⟩
+
+/-- ids are never reused: whatever happens after a state `s` — requests, deletes, drops, entity removals —, a
+    subscription whose id is not above the counter of `s` is a subscription of `s` (same id, same pair) -/
+theorem old_id_old_entry (c : Cfg) (ops : List Op) (s : St) (e : Entry) (he : e ∈ (ops.foldl (step c) s).subs)
+    (hid : e.id ≤ s.subNum) : e ∈ s.subs := by
+  induction ops generalizing s with
+  | nil => exact he
+  | cons op ops ih =>
+    have h1 := step_subs_old_or_fresh c s op
+    have h2 := ih (step c s op) he (Nat.le_trans hid h1.2)
+    rcases h1.1 e h2 with h | h
+    · exact h
+    · omega
+
+
 end Spine.Reg
